@@ -12,18 +12,26 @@ class C09(core.Check):
     driver = 'drv_c09'
     quick_cases = 3000
     thorough_cases = 60000
-    rule = ('3 of 4 cases are histories: a pandas DataFrame (0-12 rows; hidden row id in every column: rid numerical, '
-            'c categorical, y target; 12 index labelings incl. offset / permuted / negative / string / float / duplicate '
-            'labels made by set_index, concat and iloc; 10 split-assignment patterns incl. empty splits; 6 split-column '
-            'dtypes) -> Dataset -> optional pre-materialization prefix (col_select, illegal calls) -> materialize -> up '
-            'to 8 operations from {index_select / __getitem__ with int, list, range, int64/int32 tensor, bool mask '
-            '(tensor or list), int slice, slice with float bounds and steps; shuffle (seeded torch RNG, return_perm on '
-            'every other call); get_split; split(); tensor_frame; materialize again; col_select (illegal)} each applied '
-            'to ANY previously derived dataset; about 8% of the indices are deliberately illegal. 1 of 4 cases is a '
-            'generate_random_split call (length 0..120 quick / 0..300 thorough, ratios from decimal / dyadic / thirds / '
-            'random doubles / non-positive / >= 1, include_test on and off, seed < 2^32) run twice under different '
-            'prior states of the global numpy generator. A history is non-trivial when at least one derived dataset '
-            'has >= 1 row; a generator case when it returns >= 2 entries. distinct = distinct case hash.')
+    rule = ('3 of 4 cases are histories: a pandas DataFrame (0-12 rows, and a few percent with a length from the size '
+            'ladder of harness/stress.py: 17..259 at level 0, ..4099 at level 1, ..65539 at level 2; every column an '
+            'injective function of a hidden row id; 30% of the frames take 2-5 column names, the target and the split '
+            'column from a family of names that are substrings / prefixes / suffixes / case variants of each other or '
+            'sentinel look-alikes, a few frames have 17..259 (level 2: ..1027) columns stem0, stem1, ...; 15 index labelings incl. offset / permuted / negative / string / float / > 2^53 / '
+            'datetime / sentinel-like strings / duplicate labels made by set_index, concat and iloc; 10 split-assignment '
+            'patterns incl. empty splits; 11 split-column dtypes incl. nullable Int64 and categorical) -> Dataset -> '
+            'optional pre-materialization prefix (col_select with a single string or a list, legal / unknown look-alike '
+            'names, illegal calls) -> materialize -> up to 8 (0.6% of the histories: 17..35) operations from '
+            '{index_select / __getitem__ with int, list, range, int64/int32 tensor, bool mask (tensor or list), int '
+            'slice, slice with float bounds and steps; index arguments of ladder length incl. longer than the dataset; '
+            'the same index object passed again; shuffle (seeded torch RNG, return_perm on every other call); get_split; '
+            'split(); split() and the three get_split() on the same dataset in any order; tensor_frame; materialize '
+            'again; col_select (illegal)} each applied to ANY previously derived dataset; about 8% of the indices are '
+            'deliberately illegal. 1 of 4 cases is a generate_random_split call (length 0..120 quick / 0..300 thorough '
+            'plus ladder lengths, ratios from decimal / dyadic / thirds / random doubles / non-positive / >= 1, '
+            'include_test on and off, seed < 2^32) run twice under different prior states of the global numpy '
+            'generator. Frames or index arguments above 20000 rows are judged by the direct oracle only. A history is '
+            'non-trivial when at least one derived dataset has >= 1 row; a generator case when it returns >= 2 entries. '
+            'distinct = distinct case hash.')
     partial_notes = (
         '"derived datasets never alter the dataset they came from" is proved for the functional model '
         '(parents_unchanged) and checked on the real objects: every existing dataset is re-observed after every call',
@@ -34,6 +42,12 @@ class C09(core.Check):
         'recomputed by the harness and passed to the model; theorems hold for every permutation',
         'a dataset without any feature column (col_select of the target only) is modelled as "materialize raises", '
         'which is what the code does when a target exists and the frame has rows; other featureless frames are not generated',
+        'scale: the list-based Lean model gathers in O(rows x index length); frames or index arguments above 20000 rows '
+        '(ladder rungs 32769 and 65537, thorough tier only) are judged by the direct Python-list oracle only '
+        '(oracle_only_cases); everything up to 16385+2 rows is compared with the model',
+        'index tensors are generated with dtype int64 / int32 / bool; int16 / int8 / float tensors are rejected by torch, '
+        'and a uint8 tensor (deprecated mask semantics in torch, positions in pandas) is probed and logged under '
+        'observed_outside_generated_domain, not generated',
     )
     assumptions = ('pandas `iloc`, dense-tensor indexing and `numpy.nonzero` are modelled by Python-list position '
                    'semantics (TFVerif/Model/Py.lean, shared with C05/C07)',)
@@ -45,11 +59,22 @@ class C09(core.Check):
     # ------------------------------------------------------------------ generation
     def generate(self, rng, n, tier):
         nmax = 300 if tier == 'thorough' else 120
+        lvl = self.level
         for i in range(n):
             if i % 4 == 3:
-                yield G.gen_split_case(rng, self._stats, nmax)
+                yield G.gen_split_case(rng, self._stats, nmax, lvl)
             else:
-                yield G.gen_history(rng, self._stats)
+                yield G.gen_history(rng, self._stats, lvl)
+
+    @staticmethod
+    def _too_big_for_model(case):
+        """the list-based Lean model gathers in O(rows x index length): the largest rungs of the size ladder are
+        judged by the direct oracle only (counted as oracle_only_cases)"""
+        if case['n'] > G.MODEL_MAX:
+            return True
+        if case['kind'] == 'hist':
+            return any(len(op['ix'].get('is', ())) > G.MODEL_MAX for op in case['ops'] if op['op'] == 'select')
+        return False
 
     # ------------------------------------------------------------------ real code
     def real(self, case):
@@ -61,6 +86,8 @@ class C09(core.Check):
 
     # ------------------------------------------------------------------ model
     def model_requests(self, case):
+        if self._too_big_for_model(case):
+            return []
         if case['kind'] == 'gen':
             return [{'cmd': 'gen', 'n': case['n'], 'seed': case['seed'], 'rt': case['rt'], 'rv': case['rv'],
                      'it': case['it'], 'perm': G.numpy_perm(case['seed'], case['n'])}]
@@ -83,6 +110,8 @@ class C09(core.Check):
                  'ops': ops}]
 
     def model_outcome(self, case, replies):
+        if not replies:
+            return core.SKIP_MODEL
         rep = replies[0]
         if case['kind'] == 'gen':
             return rep
@@ -109,6 +138,9 @@ class C09(core.Check):
             return core.Violation(key, what, case, exp, got)
         if case['kind'] == 'gen':
             return self._oracle_gen(case, real_outcome)
+        v = self._oracle_split_vs_get_split(case, real_outcome)
+        if v is not None:
+            return v
         ref = G.ref_run(case)
         if ref == real_outcome:
             return None
@@ -122,10 +154,38 @@ class C09(core.Check):
                 what = 'raises-or-not' if (a == 'raises') != (b == 'raises') else 'wrong-rows'
                 if what == 'wrong-rows' and op['op'] == 'shuffle' and a.get('derived') == b.get('derived'):
                     what = 'reported-permutation'
+                if what == 'wrong-rows' and op['op'] == 'col_select' and len(a.get('derived', ())) == len(
+                        b.get('derived', ())) and all(dict(x, cols=None) == dict(y, cols=None)
+                                                      for x, y in zip(a['derived'], b['derived'])):
+                    what = 'wrong-columns'
                 return core.Violation(f'hist/{op["op"]}/{what}',
                                       f'step {k} ({op}): the real dataset differs from the plain Python-list selection',
                                       dict(case, ops=case['ops'][:k + 1]), a, b)
         return core.Violation('hist/length', 'number of steps differs', case, ref, real_outcome)
+
+    def _oracle_split_vs_get_split(self, case, out):
+        """metamorphic, needs no reference: `d.split()` and `(d.get_split('train'), d.get_split('val'),
+        d.get_split('test'))` taken from the same dataset `d` are the same three datasets"""
+        if out.get('ctor') != 'ok':
+            return None
+        by_src = {}
+        for k, (op, o) in enumerate(zip(case['ops'], out['steps'])):
+            if not (isinstance(o, dict) and 'derived' in o):
+                continue
+            if op['op'] == 'split' and len(o['derived']) == 3:
+                for nm, d in zip(G.SPLIT_NAMES, o['derived']):
+                    by_src.setdefault((op['src'], nm), []).append((k, 'split()', d))
+            elif op['op'] == 'get_split' and op['name'] in G.SPLIT_NAMES:
+                by_src.setdefault((op['src'], op['name']), []).append((k, 'get_split', d := o['derived'][0]))
+        for (src, nm), seen in by_src.items():
+            k0, how0, d0 = seen[0]
+            for k, how, d in seen[1:]:
+                if d != d0:
+                    return core.Violation(
+                        'hist/split/differs-from-get_split',
+                        f'dataset {src}: the {nm} subset obtained at step {k0} ({how0}) and at step {k} ({how}) differ',
+                        dict(case, ops=case['ops'][:max(k, k0) + 1]), G._short(d0), G._short(d))
+        return None
 
     def _oracle_gen(self, case, out):
         ref = G.ref_split(case)
@@ -150,19 +210,70 @@ class C09(core.Check):
                 return core.stable_hash(case)
         return None
 
+    @staticmethod
+    def _bucket(n):
+        if n <= 12:
+            return str(n)
+        for lo, lab in ((65537, '65537+'), (4097, '4097-65536'), (257, '257-4096'), (17, '17-256')):
+            if n >= lo:
+                return lab
+        return '13-16'
+
     def classify(self, case, out):
         if case['kind'] == 'gen':
+            n = case['n']
             labs = ['kind:gen', f"gen:include_test={case['it']}", 'gen:' + ('raises' if out == 'raises' else 'ok'),
-                    'gen:n=' + ('0' if case['n'] == 0 else '1-9' if case['n'] < 10 else '10-99' if case['n'] < 100 else '100+')]
+                    'gen:n=' + ('0' if n == 0 else '1-9' if n < 10 else '10-99' if n < 100 else '100-256' if n < 257
+                                else '257-4096' if n < 4097 else '4097+')]
+            if n >= 257:
+                labs.append('scale:split-generator-length:257+')
+            if self._too_big_for_model(case):
+                labs.append('oracle-only:too-big-for-the-list-model')
             return labs
-        labs = ['kind:hist', f"rows:{case['n']}", f"labels:{case['label_kind']}", f"ctor:{case['ctor']}",
-                f"split_dtype:{case['split_dtype']}", f"steps:{len(case['ops'])}"]
+        nsteps = len(case['ops'])
+        labs = ['kind:hist', f"rows:{self._bucket(case['n'])}", f"labels:{case['label_kind']}", f"ctor:{case['ctor']}",
+                f"split_dtype:{case['split_dtype']}", f"steps:{nsteps if nsteps < 15 else '15-32' if nsteps < 33 else '33+'}"]
+        if case['n'] >= 17:
+            labs.append('scale:rows:17+')
+        if case['n'] >= 257:
+            labs.append('scale:rows:257+')
+        if case['n'] >= 4097:
+            labs.append('scale:rows:4097+')
+        if case['n'] >= 65537:
+            labs.append('scale:rows:65537+')
+        if nsteps >= 17:
+            labs.append('scale:prior-calls:17+')
+        if self._too_big_for_model(case):
+            labs.append('oracle-only:too-big-for-the-list-model')
+        # column names
+        names = list(case['cols'])
+        tgt = case['target']
+        if 'coldefs' in case and set(names) - {'rid', 'c', 'y'}:
+            labs.append('names:confusable-family')
+            low = [x.lower() for x in names]
+            if len(set(low)) < len(low):
+                labs.append('names:case-variants')
+            if any(a != b and a in b for a in names for b in names):
+                labs.append('names:one-contains-another')
+            if tgt is not None and any(tgt != b and tgt in b for b in names):
+                labs.append('names:target-is-substring-of-a-feature')
+            if tgt is not None and any(tgt != b and b in tgt for b in names):
+                labs.append('names:feature-is-substring-of-target')
+            if case.get('split_name', 's') not in ('s', 'split', '_split'):
+                labs.append('names:split-column-from-the-family')
+        if len(names) - (1 if tgt else 0) >= 3:
+            labs.append('columns:3+features')
+        for lo in (17, 257):
+            if len(names) >= lo:
+                labs.append(f'scale:columns:{lo}+')
         for v in (0, 1, 2):
             if case['n'] and v not in case['split']:
                 labs.append(f'frame-with-empty-split:{v}')
         if out.get('ctor') != 'ok':
             return labs + ['ctor:raises']
         lineage = [set()]
+        sizes = [case['n']]
+        split_src = {}
         for op, o in zip(case['ops'], out['steps']):
             k = op['op']
             res = 'raises' if o == 'raises' else 'ok'
@@ -178,7 +289,31 @@ class C09(core.Check):
                     t = ('fslice' if fl else 'slice') + ('' if ix.get('s') in (None, 1) else ':step')
                 else:
                     t = f"{t}/{ix.get('as', '')}"
+                    if ix.get('as') in ('tensor', 'tensor32'):
+                        labs.append('index-dtype:' + ('bool' if ix['t'] == 'mask' else
+                                                      'int64' if ix['as'] == 'tensor' else 'int32'))
+                    ln = len(ix.get('is', ix.get('bs', ())))
+                    if ln >= 17:
+                        labs.append('scale:index-argument:17+')
+                    if ln >= 257:
+                        labs.append('scale:index-argument:257+')
+                    if ln >= 4097:
+                        labs.append('scale:index-argument:4097+')
+                    if ln > sizes[op['src']] >= 1 and ln >= 17:
+                        labs.append('scale:index-longer-than-dataset')
+                if ix.get('reuse') is not None:
+                    labs.append('alias:index-reused')
                 labs.append(f'select:{t}:{res}')
+            elif k == 'col_select':
+                form = op.get('form', 'legacy')
+                labs.append(f'col_select:{res}')
+                labs.append(f'col_select:form={form}:{res}')
+                if len(op['cols']) >= 17:
+                    labs.append(f'scale:col_select-argument:17+:{res}')
+                if tgt is not None and any(tgt != c and tgt in c for c in op['cols']):
+                    labs.append(f'col_select:{form}:name-contains-target-name:{res}')
+                if tgt is not None and any(tgt != c and c in tgt and c != '' for c in op['cols']):
+                    labs.append(f'col_select:{form}:name-contained-in-target-name:{res}')
             else:
                 labs.append(f'{k}:{res}')
             if k in ('get_split', 'split') and res == 'ok':
@@ -188,9 +323,18 @@ class C09(core.Check):
                     labs.append('split-lookup-after-selection')
                 if any(len(d['df'] or []) == 0 for d in o['derived']):
                     labs.append('split-lookup-returns-empty')
+                if sizes[op['src']] >= 17:
+                    labs.append(f'scale:{k}-of-17+-rows')
+                if sizes[op['src']] >= 257:
+                    labs.append(f'scale:{k}-of-257+-rows')
+                kinds = split_src.setdefault(op['src'], set())
+                kinds.add(k)
+                if kinds == {'get_split', 'split'}:
+                    labs.append('split()-and-get_split()-on-the-same-dataset')
             if isinstance(o, dict) and 'derived' in o:
                 for d in o['derived']:
                     lineage.append(hist | {k})
+                    sizes.append(len(d['df'] or []))
                     if len(d['df'] or []) == 0 and d['mat']:
                         labs.append('derives-empty-dataset')
                 if len(hist) >= 2:
@@ -319,6 +463,64 @@ class C09(core.Check):
                     f'{"accepted" if ok_expected else "rejected"}', {'probe': name}, ok_expected, ok_real))
         extra['constructor_probes'] = len(probes)
         extra['float-boundary-skipped'] = dict(self._stats)
+
+        # (5) every rung of the size ladder of this stress level, deterministically: one history per rung that
+        #     shuffles, splits, looks the splits up one by one, and selects with index arguments of that length
+        from harness import stress
+        rungs, lbad = [], 0
+        for n in stress.ladder(self.level):
+            case = G.ladder_history(rng, n)
+            real, findings = G.run_real_history(case, watch='all' if n <= 5000 else 'src')
+            self._findings = findings
+            v = self.oracle(case, real)
+            self._findings = []
+            if v is not None:
+                v.key = 'ladder/' + v.key
+                v.what = f'size ladder ({n} rows): ' + v.what
+                report['violations'].append(v)
+            with_model = not self._too_big_for_model(case)
+            if with_model:
+                model = self.model_outcome(case, drv.ask(self.model_requests(case)))
+                if model != real:
+                    lbad += 1
+                    if lbad <= 3:
+                        disagree('size ladder', {'n': n, 'ops': [o['op'] for o in case['ops']]},
+                                 str(real)[:200], str(model)[:200])
+            rungs.append({'rows': n, 'steps': len(case['ops']), 'compared_with_model': with_model})
+        extra['size_ladder'] = {'rungs': rungs, 'disagreements': lbad}
+
+        # (6) index tensors of dtypes torch itself rejects or treats as deprecated masks: logged, not generated
+        extra['observed_outside_generated_domain'] = self._index_dtype_probes()
+
+    def _index_dtype_probes(self):
+        import warnings
+        import torch
+        out = {}
+        case = {'kind': 'hist', 'n': 6, 'labels': list(range(6)), 'label_kind': 'range', 'cols': ['rid', 'c', 'y'],
+                'target': 'y', 'split': [0, 1, 2, 0, 1, 2], 'ctor': 'ok', 'split_dtype': 'int64',
+                'ops': [{'op': 'materialize', 'src': 0}]}
+        with warnings.catch_warnings():
+            warnings.simplefilter('ignore')
+            import torch_frame
+            from torch_frame.data import Dataset
+            df = G.build_df(case)
+            ds = Dataset(df, {'rid': torch_frame.numerical, 'c': torch_frame.categorical, 'y': torch_frame.numerical},
+                         target_col='y', split_col='s').materialize()
+            ob = G.Observer(case, [])
+            for name, dt in (('int16', torch.int16), ('int8', torch.int8), ('uint8', torch.uint8),
+                             ('float32', torch.float32)):
+                for vals in ([1, 0, 1, 0, 1, 1], [3, 1]):
+                    try:
+                        o = ob.obs(ds[torch.tensor(vals, dtype=dt)], 0)
+                        res = {'df_rows': o['df'], 'tensor_frame_rows': o['tf'], 'aligned': o['df'] == o['tf']}
+                    except Exception as e:
+                        res = f'raises {type(e).__name__}'
+                    out[f'index tensor dtype {name}, values {vals}, on 6 rows'] = res
+        out['note'] = ('int16 / int8 / float index tensors are rejected by torch; a uint8 tensor is read as a position '
+                       'list by DataFrame.iloc and as a (deprecated) mask by torch indexing, so a 0/1 uint8 tensor of '
+                       'the dataset\'s length yields a DataFrame and a TensorFrame holding different rows; index '
+                       'tensors are generated with dtype int64 / int32 / bool only')
+        return out
 
     def _ctor_probes(self):
         import numpy as np
